@@ -210,6 +210,7 @@ class Sides:
                 pass
 
     def run_impl(self, texts, stack=STACK):
+        self.tokens = {}
         lines = []
         for i, t in enumerate(texts):
             h = hxl(list(t.encode('utf-8')))
@@ -221,6 +222,7 @@ class Sides:
             ev = res.get('e%d' % i, 'NOOUTPUT')
             pa = res.get('p%d' % i, 'NOOUTPUT').split('\t')
             ast = pa[2] if pa[0] == 'OK' and len(pa) > 2 else None
+            self.tokens[texts[i]] = pa[1] if pa[0] == 'OK' and len(pa) > 2 else None
             out.append((ev, ast))
         return out
 
@@ -265,6 +267,65 @@ def count_ast(run, ast):
         pass
 
 
+def sexp(text):
+    toks = text.replace('(', ' ( ').replace(')', ' ) ').split()
+    pos = [0]
+
+    def rd():
+        t = toks[pos[0]]
+        pos[0] += 1
+        if t == '(':
+            l = []
+            while toks[pos[0]] != ')':
+                l.append(rd())
+            pos[0] += 1
+            return l
+        return t
+    return rd()
+
+
+def field_separators(ast_text):
+    """(plus, visibility) of every object field of the AST, as a sorted list of separator spellings"""
+    vis = {'Default': ':', 'Hidden': '::', 'ForceVisible': ':::'}
+    out = []
+
+    def walk(n):
+        if not isinstance(n, list) or not n:
+            return
+        if n[0] == 'FValue':
+            out.append(('+' if n[2] == '1' else '') + vis[n[3]])
+        elif n[0] == 'FFunc':
+            out.append(vis[n[4]])
+        elif n[0] == 'Comp':
+            out.append(('+' if n[3] == '1' else '') + ':')
+        for c in n[1:]:
+            walk(c)
+    walk(sexp(ast_text))
+    return out
+
+
+SEP_TOKENS = {'PlusColon': '+:', 'PlusColonColon': '+::', 'PlusColonColonColon': '+:::', 'ColonColonColon': ':::'}
+
+
+def separator_oracle(run, text, tokens, ast):
+    """oracle on the implementation alone: each unambiguous field-separator token of the token stream
+    (+: +:: +::: :::) is one object field of the AST with exactly that plus flag and visibility"""
+    got = {}
+    for sp in field_separators(ast):
+        got[sp] = got.get(sp, 0) + 1
+    want = {}
+    for name in re.findall(r'\(S (\w+) ', tokens):
+        if name in SEP_TOKENS:
+            want[SEP_TOKENS[name]] = want.get(SEP_TOKENS[name], 0) + 1
+    for sp in SEP_TOKENS.values():
+        if want.get(sp, 0) != got.get(sp, 0):
+            run.violation('parser-field-separator:' + sp,
+                          'the token stream has %d `%s` separators but the AST has %d fields with that plus flag / visibility: %r'
+                          % (want.get(sp, 0), sp, got.get(sp, 0), text), {'kind': 'program', 'text': text})
+            return
+    run.count('oracle_separator_tokens_vs_ast')
+
+
 def compare_programs(run, sides, progs, label, count_nontrivial=True):
     """progs: list of (name, text, info).  K: implementation vs model."""
     texts = [p[1] for p in progs]
@@ -285,6 +346,8 @@ def compare_programs(run, sides, progs, label, count_nontrivial=True):
             run.count('impl_error_' + ic[1])
         if ast is not None and label != 'replay':
             count_ast(run, ast)
+        if ast is not None and sides.tokens.get(text):
+            separator_oracle(run, text, sides.tokens[text], ast)
         if ic[0] == 'static' or ast is None:
             run.count(label + '_skipped_static_error')
             continue
@@ -372,13 +435,13 @@ def twin(n):
 
 WRAPPERS = [
     lambda p: '(' + p + ')',
-    lambda p: 'local v__ = ' + p + '; v__',
-    lambda p: '[' + p + '][0]',
-    lambda p: 'if true then ' + p + ' else error "no"',
-    lambda p: '(function() ' + p + ')()',
-    lambda p: '(function(x) x)(' + p + ')',
-    lambda p: 'std.foldl(function(a, b) b, [' + p + '], null)',
-    lambda p: 'assert true : error "dead"; ' + p,
+    lambda p: 'local v__ = (' + p + '); v__',
+    lambda p: '[(' + p + ')][0]',
+    lambda p: 'if true then (' + p + ') else error "no"',
+    lambda p: '(function() (' + p + '))()',
+    lambda p: '(function(x) x)((' + p + '))',
+    lambda p: 'std.foldl(function(a, b) b, [(' + p + ')], null)',
+    lambda p: 'assert true : error "dead"; (' + p + ')',
 ]
 
 
@@ -513,8 +576,8 @@ def check(run):
     done = 0
     ndis = 0
     # targeted scenario streams: object reuse (observe / extend / observe again) and the separator matrix
-    nre = 80 if run.tier == 'quick' else 1500
-    reps = 2 if run.tier == 'quick' else 30
+    nre = 150 if run.tier == 'quick' else 1500
+    reps = 3 if run.tier == 'quick' else 30
     scen = []
     for i in range(nre):
         text, info = gen_prog.gen_reuse_program(rng)
